@@ -27,3 +27,19 @@ mk("MC_Coin_adv11b", G11, "H1", 4, "AllR", "R1", False, ALL)
 mk("MC_Coin_adv47", G47, "H0", 3, "A1", "R1", False, ALL)
 # generator: every maximal schedule of two honest parties
 mk("GEN_Coin_hh", G23, "H01", 0, "A1", "R1", False, "GenPrint", gen=True)
+
+# ---- n-party (MC_CoinN.tla)
+def mkn(name, grp, n, t, strict, mode, honp, devp, invs):
+    with open(os.path.join(HERE, name + ".cfg"), "w") as f:
+        f.write("SPECIFICATION Spec\nCONSTANTS\n P = %d\n Q = %d\n Gg = %d\n Hh = %d\n" % grp)
+        f.write(" N = %d\n T = %d\n Strict = %s\n Mode = \"%s\"\n HonP <- %s\n DevP <- %s\n" % (n, t, "TRUE" if strict else "FALSE", mode, honp, devp))
+        f.write("INVARIANTS %s\nCHECK_DEADLOCK FALSE\n" % invs)
+mkn("MC_CoinN_q3", G11, 3, 1, True, "byz", "PolysConst", "PolysConst", "Holds Interp")
+mkn("MC_CoinN_q3t", G11, 3, 1, True, "tamper", "PolysAll", "PolysConst", "Holds Interp")
+mkn("MC_CoinN_norule", G11, 3, 1, False, "byz", "PolysConst", "PolysConst", "Holds")      # must be violated
+mkn("MC_CoinN_vac1", G11, 3, 1, True, "byz", "PolysConst", "PolysConst", "NeverRecon")    # must be violated
+mkn("MC_CoinN_vac2", G11, 3, 1, True, "byz", "PolysConst", "PolysConst", "NeverDisq")     # must be violated
+mkn("MC_CoinN_3", G11, 3, 1, True, "byz", "PolysAll", "PolysConst", "Holds Interp")
+mkn("MC_CoinN_4", G11, 4, 1, True, "byz", "PolysConst", "PolysConst", "Holds Interp")
+mkn("MC_CoinN_4t", G11, 4, 1, True, "tamper", "PolysAll", "PolysConst", "Holds Interp")
+mkn("MC_CoinN_5t2", G23, 5, 2, True, "tamper", "PolysConst", "PolysConst", "Holds Interp")
